@@ -205,37 +205,46 @@ def isCollectionCall (attrs : List AttrArg) : Bool :=
     | .qn q => q.uri == provUri ++ "collection"
     | _ => false)
 
+/-- the three classes of attribute: reference / time / other; yields the value to store -/
+def convValue (parent : Option NsMgr) (m1 : NsMgr) (attr : QName) (a : AttrArg) : NsMgr × Conv :=
+  if isRefAttr attr then
+    match a.value.toNameArg with
+    | some na =>
+      let r := m1.validName parent na
+      (r.1, match r.2 with | some q => .ok (.qn q) | none => .isNone)
+    | none => (m1, .isNone)
+  else if isTimeAttr attr then
+    match a.value with
+    | .val (.dt t) => (m1, .ok (.dt t))
+    | .val (.str s) => (m1, match parseIso s with | some t => .ok (.dt t) | none => .isNone)
+    | _ => (m1, .crash errType)                         -- dateutil: TypeError on non-strings
+  else autoLiteral m1 a.value a.flt
+
+/-- the single-value guard and the insertion -/
+def storeValue (isColl : Bool) (r : Record) (attr : QName) (v : Value) : Record × Option Err :=
+  if !isColl && isProvAttr attr && !(r.get attr).isEmpty then
+    match (r.get attr).head? with
+    | some ex => if v.pyEq ex then (r, none) else (r, some errProv)
+    | none => (r, none)
+  else (r.insert attr v, none)
+
 /-- The loop body of `add_attributes` for one pair. -/
 def addOne (parent : Option NsMgr) (isColl : Bool) (m : NsMgr) (r : Record) (a : AttrArg) :
     NsMgr × Record × Option Err :=
   match a.value with
   | .nil => (m, r, none)                                     -- `if original_value is None: continue`
   | _ =>
-    let (m1, attr?) := m.validName parent a.name
-    match attr? with
-    | none => (m1, r, some errInvalidQName)
+    let r1 := m.validName parent a.name
+    match r1.2 with
+    | none => (r1.1, r, some errInvalidQName)
     | some attr =>
-      let (m2, conv) : NsMgr × Conv :=
-        if isRefAttr attr then
-          match a.value.toNameArg with
-          | some na => let (m', q?) := m1.validName parent na
-                       (m', match q? with | some q => .ok (.qn q) | none => .isNone)
-          | none => (m1, .isNone)
-        else if isTimeAttr attr then
-          match a.value with
-          | .val (.dt t) => (m1, .ok (.dt t))
-          | .val (.str s) => (m1, match parseIso s with | some t => .ok (.dt t) | none => .isNone)
-          | _ => (m1, .crash errType)                         -- dateutil: TypeError on non-strings
-        else autoLiteral m1 a.value a.flt
-      match conv with
-      | .crash e => (m2, r, some e)
-      | .isNone => (m2, r, some errProv)                      -- "Invalid value for attribute"
+      let r2 := convValue parent r1.1 attr a
+      match r2.2 with
+      | .crash e => (r2.1, r, some e)
+      | .isNone => (r2.1, r, some errProv)                    -- "Invalid value for attribute"
       | .ok v =>
-        if !isColl && isProvAttr attr && !(r.get attr).isEmpty then
-          match (r.get attr).head? with
-          | some ex => if v.pyEq ex then (m2, r, none) else (m2, r, some errProv)
-          | none => (m2, r, none)
-        else (m2, r.insert attr v, none)
+        let r3 := storeValue isColl r attr v
+        (r2.1, r3.1, r3.2)
 
 /-- `add_attributes(attributes)`: stops at the first error, keeping what was added before it. -/
 def addAttrsLoop (parent : Option NsMgr) (isColl : Bool) (m : NsMgr) (r : Record) :
